@@ -19,7 +19,7 @@ type c16Case struct {
 	KeySeed uint64 `json:"key_seed"`
 	KeyMode int    `json:"key_mode"` // 0 decimal padded, 1 random bytes
 	File    bool   `json:"file_backed_flushed_evicted"`
-	Mode    string `json:"mode"` // len | block | random
+	Mode    string `json:"mode"`    // len | block | random
 	Mangler int    `json:"mangler"` // 0 nil, 1 identity, 2 reverse, 3 shuffle, 4 rotate
 	WV      bool   `json:"with_value"`
 }
